@@ -73,6 +73,7 @@ def se_unit(name, file, qualname, cls, setup, post, loop_specs=None, inline=(), 
         seen = {}
         tmo = TIMEOUT_MS.get(tier, 10000)
         vac = None
+        vac_seen = set()
         for i, ob in enumerate(E.obligations):
             k = seen.get(ob["name"], 0)
             seen[ob["name"]] = k + 1
@@ -80,11 +81,14 @@ def se_unit(name, file, qualname, cls, setup, post, loop_specs=None, inline=(), 
                 ob = dict(ob, name=f"{ob['name']}#{k}")
             r = solve_one(ob, timeout_ms=tmo, recheck_cvc5=(tier == "thorough"))
             r["goal_text"] = str(ob["goal"])[:300]
-            if r["status"] == "unsat" and vac is None and i % 7 == 0:
-                # vacuity guard: the hypotheses of (a sample of) discharged obligations must be satisfiable
-                v = vacuity_check(ob["pc"])
-                if v == "unsat":
-                    vac = ob["name"]
+            if r["status"] == "unsat" and vac is None:
+                # vacuity guard: the hypotheses of every discharged obligation must be satisfiable (one check per distinct
+                # hypothesis set; `unknown` is accepted, a contradictory set makes the whole unit a checker error)
+                key = (len(ob["pc"]), ob["pc"][-1].get_id() if ob["pc"] else 0)
+                if key not in vac_seen:
+                    vac_seen.add(key)
+                    if vacuity_check(ob["pc"], timeout_ms=1000) == "unsat":
+                        vac = ob["name"]
             if r.get("cvc5_recheck") == "sat":
                 res["crash"] = f"solver disagreement on {ob['name']}: z3 unsat, cvc5 sat"
             obs.append(r)
